@@ -63,5 +63,16 @@ def count_rules(ctx, rep, P):
         in_parent = [s for bl in b.blocks for s in bl["s"] if s["rv"]["r"] == "bin" and s["rv"]["op"].startswith("Sub")]
         in_parent += [t for _, t in b.calls() if re.search(r"SubAssign<.*>>::sub_assign$", callee_name(t))]
         insp = [t for _, t in b.calls() if re.search(r"Result::<T, E>::inspect$", callee_name(t))]
-        rep.check(P + ".count", "LimitedReader: the remaining block size shrinks by the bytes actually read", len(mins) == 1 and len(subs) == 1 and not in_parent and len(insp) == 1, loc_of(b), "",
+        by_arg = False
+        for c in cl:
+            for bl in c.blocks:
+                for s_ in bl["s"]:
+                    if s_["rv"]["r"] == "bin" and s_["rv"]["op"].startswith("Sub"):
+                        rp = root_place(c, s_["rv"]["b"])
+                        by_arg = rp is not None and rp["l"] == 2   # the closure's own argument: the count the inner read returned
+            for _, t in c.calls():
+                if re.search(r"SubAssign<.*>>::sub_assign$", callee_name(t)):
+                    rp = root_place(c, t["a"][1])
+                    by_arg = rp is not None and rp["l"] == 2
+        rep.check(P + ".count", "LimitedReader: the remaining block size shrinks by the bytes actually read", len(mins) == 1 and len(subs) == 1 and not in_parent and len(insp) == 1 and by_arg, loc_of(b), "",
                   "the metadata block limiter no longer accounts the bytes returned by the inner read: a source that splits its reads ends the block early")
